@@ -1,0 +1,68 @@
+//go:build verif
+
+package store
+
+import (
+	"context"
+	"database/sql"
+
+	clientv3 "go.etcd.io/etcd/client/v3"
+	"go.uber.org/zap"
+
+	api2 "github.com/zilliztech/milvus-cdc/core/api"
+	"github.com/zilliztech/milvus-cdc/core/log"
+)
+
+// The constructors below exist only in builds with the verif tag. They build the
+// same store objects as the shipped constructors but take an already made
+// client / *sql.DB, so that a simulation harness can put a simulated backend
+// underneath (no dial, no ping).
+
+func NewEtcdMetaStoreWithClient(etcdClient *clientv3.Client, rootPath string, replicateStore api2.ReplicateStore) *EtcdMetaStore {
+	txnMap := make(map[any][]clientv3.Op)
+	mk := func(table string) *zap.Logger {
+		return log.With(zap.String("meta_store", "etcd"), zap.String("table", table), zap.String("root_path", rootPath)).Logger
+	}
+	return &EtcdMetaStore{
+		log:                         log.With(zap.String("meta_store", "etcd")).Logger,
+		etcdClient:                  etcdClient,
+		taskInfoStore:               &TaskInfoEtcdStore{log: mk("task_info"), rootPath: rootPath, etcdClient: etcdClient, txnMap: txnMap},
+		taskCollectionPositionStore: &TaskCollectionPositionEtcdStore{log: mk("task_collection_position"), rootPath: rootPath, etcdClient: etcdClient, txnMap: txnMap},
+		replicateStore:              replicateStore,
+		txnMap:                      txnMap,
+	}
+}
+
+func NewMySQLReplicateStoreWithDB(ctx context.Context, db *sql.DB, rootPath string) (*MySQLReplicateStore, error) {
+	s := &MySQLReplicateStore{db: db, rootPath: rootPath}
+	s.log = log.With(zap.String("meta_store", "mysql")).Logger
+	_, err := db.ExecContext(ctx, `
+		CREATE TABLE IF NOT EXISTS task_msg (
+			task_msg_key VARCHAR(255) NOT NULL,
+			task_msg_value JSON NOT NULL,
+			PRIMARY KEY (task_msg_key),
+			INDEX idx_key (task_msg_key)
+		)
+	`)
+	if err != nil {
+		return nil, err
+	}
+	return s, nil
+}
+
+func NewMySQLMetaStoreWithDB(ctx context.Context, db *sql.DB, rootPath string, replicateStore api2.ReplicateStore) (*MySQLMetaStore, error) {
+	s := &MySQLMetaStore{db: db, replicateStore: replicateStore}
+	s.log = log.With(zap.String("meta_store", "mysql")).Logger
+	txnMap := make(map[any]func() *sql.Tx)
+	var err error
+	s.taskInfoStore, err = NewTaskInfoMysqlStore(ctx, db, rootPath, txnMap)
+	if err != nil {
+		return nil, err
+	}
+	s.taskCollectionPositionStore, err = NewTaskCollectionPositionMysqlStore(ctx, db, rootPath, txnMap)
+	if err != nil {
+		return nil, err
+	}
+	s.txnMap = txnMap
+	return s, nil
+}
